@@ -8,7 +8,7 @@ IDLE/CONNECTING/READY/TRANSIENT_FAILURE/other, also from stopped or removed chil
 expirations, cache expirations and passages of time, in any order.
 "usable" = READY, IDLE, or CONNECTING with its init timer still armed (`usable`).
 -/
-import GrpcProofs.Lemmas.PriorityB
+import GrpcProofs.Lemmas.PriorityC
 namespace GrpcProofs.C39
 open GrpcModel.Priority GrpcProofs.Lemmas.Priority
 
@@ -145,6 +145,21 @@ theorem init_timer_only_before_failure {s : St} (hr : Reach s) {c : Child} (hc :
   have h := reach_good2 hr
   have h1 := h.ti c hc
   refine ⟨h1.1, fun hs => ⟨h1.2 hs, (h.good.st.idle c hc hs).2, (h.good.st.idle c hc hs).1⟩⟩
+
+/-- What "started" / "closed" mean towards the balancer group: a child is started exactly when the
+    group holds an active sub-balancer for it; the sub-balancer of a stopped child is gone or sits
+    in the deletion cache with a deadline (it is closed when the deadline passes, op `expire`). -/
+theorem started_iff_active_in_balancer_group {s : St} (hr : Reach s) (n : Nat) :
+    (∃ b ∈ s.sbs, b.name = n ∧ b.cachedUntil = none) ↔ (∃ c ∈ s.children, c.name = n ∧ c.started = true) :=
+  (reach_good3 hr).sb.iff n
+
+theorem stopped_child_is_cached_or_closed {s : St} (hr : Reach s) {c : Child} (hc : c ∈ s.children) (hs : c.started = false)
+    {b : Sb} (hb : b ∈ s.sbs) (hn : b.name = c.name) : b.cachedUntil ≠ none := by
+  intro hnone
+  obtain ⟨c', hc', hcn, hcs⟩ := (started_iff_active_in_balancer_group hr c.name).mp ⟨b, hb, hn, hnone⟩
+  have : c' = c := eq_of_nodup_names (reach_good hr).st.cn hc' hc hcn
+  subst this
+  rw [hs] at hcs; cases hcs
 
 -- non-vacuity: fail-over, fall-back and recovery on a concrete history
 def demo : List Op := [.update [1, 2, 3] [(1, 0), (2, 0), (3, 1)], .child 1 1, .child 1 3, .child 2 1, .advance 10000, .timer 2]
